@@ -151,7 +151,7 @@ Proof.
   - pose proof (at_sim T h _ (Some r) k R Hok) as [Ho HR]. unfold a_at, with_cycle in Ho. rewrite E in Ho.
     destruct (at_spec T h _ r k R Hr) as [t' [rest' [E' Hrun]]]. rewrite E in E'. inversion E'; subst. exact Hrun.
   - destruct (at_spec T h _ r k R Hr) as [t' [rest' [E' Hrun]]]. rewrite E in E'. inversion E'; subst t' rest'.
-    unfold peek. erewrite bind_ok by exact Hrun. unfold peek_nil. rewrite enc_nil.
+    unfold peek, peek_gen. erewrite bind_ok by exact Hrun. unfold peek_nil. rewrite enc_nil.
     destruct (offset (r :: t) k) as [x|] eqn:Eo; [|reflexivity].
     assert (Hx : x < size h) by (apply Hlt; apply in_or_app; left; apply (offset_in _ _ _ Eo)).
     erewrite bind_ok by (apply get_val_ok; apply (rep_val _ _ _ R); exact Hx). reflexivity.
